@@ -144,16 +144,20 @@ impl CheckerContext {
             ),
         );
 
-        self.get_vehicle(&tour.vehicle_id)?
-            .shifts
-            .iter()
-            .find(|shift| {
-                let shift_time = TimeWindow::new(
-                    parse_time(&shift.start.earliest),
-                    shift.end.as_ref().map_or_else(|| Float::MAX, |place| parse_time(&place.latest)),
-                );
-                shift_time.intersects(&tour_time)
-            })
+        let is_tour_shift = |shift: &&VehicleShift| {
+            let shift_time = TimeWindow::new(
+                parse_time(&shift.start.earliest),
+                shift.end.as_ref().map_or_else(|| Float::MAX, |place| parse_time(&place.latest)),
+            );
+            shift_time.intersects(&tour_time)
+        };
+
+        // NOTE prefer the shift the tour refers to: an open-ended earlier shift intersects with any later tour
+        let shifts = &self.get_vehicle(&tour.vehicle_id)?.shifts;
+        shifts
+            .get(tour.shift_index)
+            .filter(is_tour_shift)
+            .or_else(|| shifts.iter().find(is_tour_shift))
             .cloned()
             .ok_or_else(|| format!("cannot find shift for tour with vehicle if: '{}'", tour.vehicle_id).into())
     }
